@@ -780,7 +780,7 @@ pub fn run(cfg: &RunCfg) -> Report {
                 any::<bool>(),
                 max_size_menu(),
                 if big {
-                    prop_oneof![Just(1u64 << 32), Just(1u64 << 40), Just(1u64 << 62), Just((1u64 << 63) - 1)].boxed()
+                    prop_oneof![Just(1u64 << 32), Just(1u64 << 40), Just(1u64 << 62), Just((1u64 << 63) - 1), Just(1u64 << 63), Just((1u64 << 63) + 1), Just(u64::MAX), Just(u64::MAX - 1), (0u64..20).prop_map(|k| u64::MAX - k)].boxed()
                 } else {
                     prop_oneof![Just(1u64), Just(2u64), Just(1000u64), Just(65_536u64), Just(1u64 << 24), Just(1u64 << 28)].boxed()
                 },
